@@ -75,7 +75,7 @@ func full(status string, body string, extra ...string) string {
 		hasN = hasN || strings.HasPrefix(e, "X-N:")
 	}
 	if !hasN {
-		h = append(h, "X-N: 5")
+		h = append(h, "X-N: 5", "X-M: 9")
 	}
 	return resp(status, h, body)
 }
@@ -317,9 +317,19 @@ func behaviours() []behaviour {
 	}
 	sort.Strings(nn)
 	for _, name := range nn {
+		name := name
 		v := hostileNumbers[name]
 		bs = append(bs, behaviour{Name: "n-" + name, Status: 200, Exp: expStatus, act: func(c net.Conn, variant string) bool {
-			w(c, full("200 OK", goodBody(variant), "X-N: "+v))
+			// X-M: the other bound a later step's preprocessor hands to randInt together with X-N —
+			// the same value (an empty range), or the far end of the int64 range (a span that does not fit)
+			m := v
+			switch name {
+			case "maxint", "neg", "zero", "big":
+				m = "-9223372036854775808"
+			case "minint", "mega":
+				m = "9223372036854775807"
+			}
+			w(c, full("200 OK", goodBody(variant), "X-N: "+v, "X-M: "+m))
 			return true
 		}})
 	}
@@ -520,7 +530,7 @@ var variants = map[string]string{
         size: {val: 5, op: ">"}
 `,
 	"funcs": `      - type: "var/header"
-        mapping: {"n": "X-N"}
+        mapping: {"n": "X-N", "m": "X-M"}
 `,
 	"all": `      - type: "var/header"
         mapping: {"h2": "X-Tok|substr(1,3)"}
@@ -535,6 +545,12 @@ var variants = map[string]string{
 var usePost = map[string]string{"header": "{{.request.probe.postprocessor.h2}}", "jsonpath": "{{.request.probe.postprocessor.tok}}",
 	"funcs": `{{randString .request.probe.postprocessor.n \"ab\"}}-{{randInt .request.probe.postprocessor.n}}-{{randInt .request.probe.postprocessor.n 5}}-{{randInt 5 .request.probe.postprocessor.n}}`,
 	"xpath": "x", "assert": "x", "all": "{{.request.probe.postprocessor.tok}}{{.request.probe.postprocessor.h2}}"}
+
+// postPre: in the funcs variant the last step also has a preprocessor that calls the functions
+// directly (not from a template) with both numbers taken from the probe's response.
+var postPre = map[string]string{"funcs": `    preprocessor:
+      mapping: {"r": "randInt(request.probe.postprocessor.n, request.probe.postprocessor.m)", "q": "randInt(request.probe.postprocessor.m)", "s": "randString(request.probe.postprocessor.m, xy)"}
+`}
 
 func scenarioCase(res *vkit.Result, p *peer, c Case) {
 	b := p.byKey[c.Behaviour]
@@ -569,7 +585,7 @@ requests:
     method: "GET"
     uri: "/k/good/` + c.Variant + `/post-` + usePost[c.Variant] + `"
     headers: {}
-scenarios:
+` + postPre[c.Variant] + `scenarios:
   - name: "scn"
     weight: 1
     min_waiting_time: 0
